@@ -292,7 +292,7 @@ void conf_fill_dir(const plan_t *p)
     simfs_add_file("/cfg/d/one", "1", 1, 0644);
     if (plan_get(p, "dir.ghost", 0)) simfs_add_dangling("/cfg/d/ghost");       /* a name stat() cannot follow, listed right behind a regular file ... */
     simfs_add_file("/cfg/d/two", "2", 1, 0644); simfs_add_dir("/cfg/d/dir");
-    if (plan_get(p, "dir.ghost", 0)) { simfs_add_dangling("/cfg/d/gone"); simfs_add_file("/cfg/d/three", "3", 1, 0644); simfs_add_dangling("/cfg/d/last"); }      /* ... behind a directory, and as the last entry */
+    if (plan_get(p, "dir.ghost", 0)) { simfs_add_looping_link("/cfg/d/gone"); simfs_add_file("/cfg/d/three", "3", 1, 0644); simfs_add_dangling("/cfg/d/last"); }      /* ... behind a directory, and as the last entry */
     if (total <= 0) return;
     if (nl < 100) nl = 100;
     if (nl > 255) nl = 255;
